@@ -52,7 +52,7 @@ theorem disconnectBlock_ne (s : State) (b : Blk) : (disconnectBlock P s b).2 ≠
       · rename_i e he
         have := saveSeq_err he
         subst this; simp
-      · simp
+      · split <;> simp
 
 theorem runSteps_ne (f : State → Blk → State × Option Err) (hf : ∀ s b, (f s b).2 ≠ some .exist) :
     ∀ (l : List Blk) (s : State), (runSteps f s l).2 ≠ some .exist := by
@@ -81,6 +81,8 @@ theorem reorganize_ne (hnx : NX P) (s : State) (d a : List Blk) : (reorganize P 
 
 theorem reorgTo_ne (hnx : NX P) (s : State) (b : Blk) (f : Option Blk) : (reorgTo P s b f).2 ≠ .err .exist := by
   unfold reorgTo
+  split
+  · simp
   dsimp only
   split
   · simp
